@@ -48,6 +48,7 @@ pub struct Op {
 pub fn is_bare_none(e: &Expr) -> bool {
     match e {
         Expr::None_ => true,
+        Expr::Some_(inner) => matches!(**inner, Expr::Todo | Expr::TestFail | Expr::Ret(_)),
         Expr::If(_, t, f) => is_bare_none(t) && is_bare_none(f),
         Expr::Block(stmts, v) => {
             is_bare_none(v)
@@ -111,6 +112,8 @@ function h_s(p int, q bool) struct S { return S { a: p, b: q } }
 function h_early(v int) int { if v == 0 { return 100 } let k = saturating_sub(v, 1) return k }
 function h_chain(v int) int { return h_early(h_int(v)) }
 function h_res(v int) result[int, bool] { if v < 0 { return Err(v == -1) } return Ok(v) }
+function h3(p int, q int, u int) int { return saturating_add(p, saturating_sub(q, u)) }
+function h4(p int, q bool, u string, w int) struct T { return T { a: saturating_sub(p, w), b: q, c: u } }
 ";
 
 pub fn helper_defs() -> Vec<FnDef> {
@@ -156,6 +159,26 @@ pub fn helper_defs() -> Vec<FnDef> {
             body: vec![Stmt::Return(Expr::Call(
                 "h_early".into(),
                 vec![Expr::Call("h_int".into(), vec![var("v")])],
+            ))],
+        },
+        FnDef {
+            name: "h3".into(),
+            params: vec![p("p", Ty::Int), p("q", Ty::Int), p("u", Ty::Int)],
+            ret: Ty::Int,
+            body: vec![Stmt::Return(Expr::Builtin(
+                Builtin::SatAdd,
+                bx(var("p")),
+                bx(Expr::Builtin(Builtin::SatSub, bx(var("q")), bx(var("u")))),
+            ))],
+        },
+        FnDef {
+            name: "h4".into(),
+            params: vec![p("p", Ty::Int), p("q", Ty::Bool), p("u", Ty::Str), p("w", Ty::Int)],
+            ret: Ty::T,
+            body: vec![Stmt::Return(Expr::StructLit(
+                "T",
+                vec![("a", Expr::Builtin(Builtin::SatSub, bx(var("p")), bx(var("w")))), ("b", var("q")), ("c", var("u"))],
+                vec![],
             ))],
         },
         FnDef {
@@ -566,6 +589,8 @@ impl Gen {
         ops.push(op("call_h_early", Int, &[Int], &[true], Box::new(|_, a| Expr::Call("h_early".into(), a))));
         ops.push(op("call_h_chain", Int, &[Int], &[true], Box::new(|_, a| Expr::Call("h_chain".into(), a))));
         ops.push(op("call_h_res", ResIB, &[Int], &[true], Box::new(|_, a| Expr::Call("h_res".into(), a))));
+        ops.push(op("call_h3", Int, &[Int, Int, Int], &[true, true, true], Box::new(|_, a| Expr::Call("h3".into(), a))));
+        ops.push(op("call_h4", T, &[Int, Bool, Str, Int], &[true, true, true, true], Box::new(|_, a| Expr::Call("h4".into(), a))));
         Gen { ops, names: Names(Cell::new(0)) }
     }
 
@@ -760,6 +785,92 @@ impl Gen {
                             continue;
                         }
                         out.push((o.ret, (o.build)(&self.names, args)));
+                    }
+                }
+            }
+        }
+        out
+    }
+
+    /// Diverging sub-expressions of the operand type `t` that return `ret_leaf` from the function:
+    /// `return L`, `<option> or return L`, a block whose `check` diverges, `todo()`.
+    fn diverging(t: Ty, ret_leaf: &Expr) -> Vec<Expr> {
+        let ret = || Expr::Ret(bx(ret_leaf.clone()));
+        let mut v = vec![ret(), Expr::Todo];
+        let opt = match t {
+            Ty::Int => Some("oi"),
+            Ty::Bool => Some("ob"),
+            Ty::S => Some("os"),
+            _ => None,
+        };
+        if let Some(o) = opt {
+            v.push(Expr::Bin(Bin::Coalesce, bx(Expr::Var(o.into())), bx(ret())));
+        }
+        if let Some(l) = small_leaves(t).first() {
+            v.push(Expr::Block(vec![Stmt::Check(Expr::Var("b".into()), ret())], bx(l.clone())));
+        }
+        v
+    }
+
+    fn with_first_leaves(&self, o: &Op, pos: usize, at: Expr) -> Option<Expr> {
+        let mut args = Vec::new();
+        for (k, t) in o.args.iter().enumerate() {
+            if k == pos {
+                args.push(at.clone());
+            } else {
+                args.push(small_leaves(*t).first()?.clone());
+            }
+        }
+        if o.rejects(&args) {
+            return None;
+        }
+        Some((o.build)(&self.names, args))
+    }
+
+    /// Diverging sub-expressions one and two levels below the returned expression: every operator,
+    /// every position, holding every operator that has a diverging operand in any of its positions
+    /// (so that 0..3 operands are already evaluated when the function returns early); and, for
+    /// calls / builtins / struct literals / comparisons, a third level.
+    pub fn never_nested(&self) -> Vec<(Ty, Expr)> {
+        let mut out = Vec::new();
+        let deep = ["saturating_add", "add", "call_h_s", "call_h3", "call_h4", "lit_S", "lit_T", "eq_Int", "lt", "some_Int", "dot_T_a"];
+        for o1 in &self.ops {
+            let Some(ret_leaf) = small_leaves(o1.ret).first().cloned() else { continue };
+            for p1 in 0..o1.args.len() {
+                for o2 in self.ops.iter().filter(|o| o.ret == o1.args[p1]) {
+                    for p2 in 0..o2.args.len() {
+                        if !o2.never_ok[p2] {
+                            continue;
+                        }
+                        // operators whose type is that of an operand become never-typed themselves
+                        let transparent = ["block", "if_", "match_", "coalesce_", "comp"].iter().any(|p| o2.name.starts_with(p));
+                        for d in Self::diverging(o2.args[p2], &ret_leaf) {
+                            if transparent && matches!(d, Expr::Ret(_) | Expr::Todo) && !o1.never_ok[p1] {
+                                continue;
+                            }
+                            let Some(mid) = self.with_first_leaves(o2, p2, d) else { continue };
+                            if let Some(e) = self.with_first_leaves(o1, p1, mid) {
+                                out.push((o1.ret, e));
+                            }
+                        }
+                        // third level
+                        if !deep.contains(&o1.name.as_str()) || !deep.contains(&o2.name.as_str()) {
+                            continue;
+                        }
+                        for o3 in self.ops.iter().filter(|o| o.ret == o2.args[p2] && deep.contains(&o.name.as_str())) {
+                            for p3 in 0..o3.args.len() {
+                                if !o3.never_ok[p3] {
+                                    continue;
+                                }
+                                for d in Self::diverging(o3.args[p3], &ret_leaf) {
+                                    let Some(inner) = self.with_first_leaves(o3, p3, d) else { continue };
+                                    let Some(mid) = self.with_first_leaves(o2, p2, inner) else { continue };
+                                    if let Some(e) = self.with_first_leaves(o1, p1, mid) {
+                                        out.push((o1.ret, e));
+                                    }
+                                }
+                            }
+                        }
                     }
                 }
             }
